@@ -219,8 +219,9 @@ JudgeCall(e) ==
 Judge(e) ==
   LET r == IF e.ev = "domain" THEN JudgeDomain(e) ELSE JudgeCall(e)
       kern == IF e.ev = "domain" THEN "domain_params" ELSE e.kern
-  IN IF r.ok THEN PrintT(<<"VERDICT", e.id, kern, r.cls>>)
-     ELSE PrintT(<<"MISMATCH", e.id, kern, r.cls>>)
+  IN \* one string per line (TLC wraps long tuples)
+     IF r.ok THEN PrintT("VERDICT|" \o ToString(e.id) \o "|" \o kern \o "|" \o r.cls)
+     ELSE PrintT("MISMATCH|" \o ToString(e.id) \o "|" \o kern \o "|" \o r.cls)
 
 Init == l \in 1..Len(Rec) /\ done = FALSE
 Next == /\ ~done
